@@ -8,6 +8,8 @@
 package main
 
 import (
+	"strings"
+	"verif.local/harness/h"
 	"bufio"
 	"encoding/json"
 	"flag"
@@ -45,9 +47,16 @@ func NewReport(p string) *Report {
 // Add records one case. nontrivial says whether it exercises the interesting part of
 // the property (the rule is stated in Report.Rule).
 func (r *Report) Add(caseLine, implLine, pretty string, nontrivial bool, tags ...string) int {
+	if h.DeepValues > 0 {
+		// the encoder met a value nested deeper than any generator builds: a value that contains itself
+		h.DeepValues = 0
+		defer func(i int) {
+			r.Violate(i, "a value nested more than 300 levels deep (a value that contains itself) was produced: values are immutable trees, this takes an in-place mutation", pretty)
+		}(len(r.cases))
+	}
 	r.cases = append(r.cases, caseLine)
 	r.impl = append(r.impl, implLine)
-	r.pretty = append(r.pretty, pretty)
+	r.pretty = append(r.pretty, strings.ReplaceAll(pretty, "\n", " \u23ce "))
 	if nontrivial {
 		r.nontrivial[caseLine] = true
 	}
